@@ -366,22 +366,10 @@ def execute(plan: dict[str, Any]) -> dict[str, Any]:
     # a tree whose library runs threads of its own: the whole sequence of loads and queries is
     # ONE simulated caller, so that those threads are scheduled by the simulator (a warmer thread
     # racing with a query, a helper thread that never lets a failing load return)
-    from detsim.sched import SimDeadlock, run_as_one_simulated_caller
+    from detsim.sched import as_one_caller
 
-    try:
-        res, sched = run_as_one_simulated_caller(lambda: _execute_inner(plan), int(plan["seed"]), env.PKG_DIR,
-                                                 preempt_lines=not env.package_uses_locks_or_threads())
-    except SimDeadlock as e:
-        # under this schedule a load (or query) of the library never returns
-        return {"violations": [{"sig": "C15/deadlock/call-never-returns",
-                                "detail": f"{e} (a load or query of the library never returns; every "
-                                          "untrustworthy file must be REJECTED, every query answered or refused)"}],
-                "digest": rng.digest(["deadlock", str(e)]), "evals": 1, "nontrivial": []}
-    res["knobs"] = {**(res.get("knobs") or {}), "whole_run_as_one_simulated_caller": 1}
-    res["sim_steps"] = sched.global_step
-    res["switches"] = sched.switches
-    res["probes"] = {**(res.get("probes") or {}), **sched.probes}
-    return res
+    return as_one_caller(PROP, lambda: _execute_inner(plan), int(plan["seed"]), env.PKG_DIR,
+                         preempt_lines=not env.package_uses_locks_or_threads())
 
 
 def _execute_inner(plan: dict[str, Any]) -> dict[str, Any]:
